@@ -56,6 +56,9 @@ Theorem C06_L4_empty_streams_refuted :
     read_pmt (packetise pid items) pid = Err E.PMTNotFound.
 Proof. exact empty_streams_refuted. Qed.
 Print Assumptions C06_L4_empty_streams_refuted.
+Theorem C06_L4_any_stream_list_refuted : ~ C06_L4_any_stream_list_full.
+Proof. exact any_stream_list_refuted. Qed.
+Print Assumptions C06_L4_any_stream_list_refuted.
 
 (* F4 (repaired in the model): the predicate as it stands on the pinned tree (done_func_orig) answers true on a
    proper prefix that stops inside a section header; the repaired one answers false there. *)
